@@ -762,6 +762,14 @@ impl World {
                             .build()
                             .unwrap();
                         let res: Result<Object<Mgr>, String> = rt.block_on(async {
+                            // off the millisecond grid of the timer wheel (see unmanaged.rs) - unless a
+                            // zero create / recycle timeout is in force: those legitimately go through
+                            // the runtime's timer ("one poll, then Elapsed" holds on the grid; off it the
+                            // timer needs the clock to move, which a hand-driven future never lets it)
+                            let eff = explicit.unwrap_or_else(|| pool.timeouts());
+                            if eff.create != Some(Duration::ZERO) && eff.recycle != Some(Duration::ZERO) {
+                                tokio::time::advance(Duration::from_micros(300)).await;
+                            }
                             // `get()` (pool-level timeouts) or `timeout_get()` (per-call timeouts)
                             type Fut<'a> = std::pin::Pin<Box<dyn Future<Output = Result<Object<Mgr>, PoolError<()>>> + 'a>>;
                             let mut fut: Fut<'_> = match &explicit {
